@@ -3,7 +3,7 @@
    (Section variable `hash` of MapM.v / MapProofs.v, generalised here), every table size >= 4 (the code starts at
    cMAP_SIZE_DEFAULT and only doubles), every flag combination.
    Has s k v = "some slot of table s holds key k with value v" -- the finite map the table represents. *)
-From LM Require Import Base SeqLemmas MapM MapProofs.
+From LM Require Import Base SeqLemmas MapM MapProofs MapIter MapClear.
 
 (* 1. the representation invariant holds in every reachable state, whatever the operations (puts with growth, removals with
       back-shift, clear, free, callback iteration with removals, iterator set/remove):
@@ -82,6 +82,22 @@ Theorem C05_iterate_plain : forall hash st rc, m_freed (ms_m st) = false -> MInv
   (forall k, In k ks <-> exists v, Has (m_slots (ms_m st)) k v).
 Proof. exact iterate_visits_each_once. Qed.
 Print Assumptions C05_iterate_plain.
+
+(* 7b. the iterator OBJECT (itr_new; then get_key / next), used without mutation, enumerates the same keys in the same order and ends *)
+Theorem C05_iterator_object_plain : forall hash st, m_freed (ms_m st) = false -> MInv hash (ms_m st) -> m_len (ms_m st) <> 0 ->
+  let ks := keys (m_slots (ms_m st)) in
+  let r := run (m_step hash) st (MItrNew :: walk (length ks)) in
+  key_ptrs (tl (snd r)) = ks /\ fst r = mkMS (ms_m st) None /\ NoDup ks /\
+  (forall k, In k ks <-> exists v, Has (m_slots (ms_m st)) k v).
+Proof. exact iterator_enumerates_each_once. Qed.
+Print Assumptions C05_iterator_object_plain.
+
+(* 7c. clear leaves an empty map (no entry, length 0), whatever clusters and wrap-arounds the table holds *)
+Theorem C05_clear_empties : forall hash st, m_freed (ms_m st) = false -> MInv hash (ms_m st) ->
+  let st' := fst (m_step hash st MClear) in
+  MInv hash (ms_m st') /\ (forall k v, ~ Has (m_slots (ms_m st')) k v) /\ m_len (ms_m st') = 0 /\ ms_itr st' = None.
+Proof. exact clear_empties. Qed.
+Print Assumptions C05_clear_empties.
 
 (* 8. the clause "iteration ... with removal of the current entry visits every live entry exactly once" is FALSE of the
       faithful model (and of the code: known finding D12, replay corpus/C05/d12_iter_remove_wrap.txt): witness by computation *)
